@@ -24,7 +24,11 @@ the TCP connection (`wire`, in order — the underlay serialises whole segments)
 * `waitDone`     the close request has been written by the output loop: the wait ends;
 * `waitExpire`   the wait expires first; `closeWithError` now wants `oLock` for a direct write;
 * `forceOut`     … gets it (`olock = false`) and writes the close request out directly;
-* `discard`      `sendQueue.DeleteAll(); sendBuf.DeleteAll(); close(closedChan)` — without `oLock`.
+* `discard`      `sendQueue.DeleteAll(); sendBuf.DeleteAll(); close(closedChan)` — without `oLock`;
+* `respOut`      the peer's session answers our close request with a response and closes, which sends a
+                 close request of its own; our `inputClose` answers THAT with a close response, written
+                 directly under `oLock`. The peer application does not close on its own in the property's
+                 scenario (it reads), so this happens only once our close request is on the wire.
 
 `WEnv` names what the writer-side theorem assumes (`Props/C03.tcp_writer_wire_order`):
 `sched` — the bounded wait does not expire while the output loop is IDLE (neither holding `oLock` nor
@@ -95,6 +99,8 @@ inductive WStep (E : WEnv) : WSt → WSt → Prop
   | forceOut (s : WSt) (ok : Bool) (hp : s.ph = .forcing) (hl : s.olock = false) (hw : E.wr = true → ok = true) :
       WStep E s { s with ph := .discarding, wire := s.wire ++ (if ok then [Item.closeReq] else []) }
   | discard (s : WSt) (hp : s.ph = .discarding) : WStep E s { s with queue := [], ph := .done }
+  | respOut (s : WSt) (hq : Item.closeReq ∈ s.wire) (hl : s.olock = false) :
+      WStep E s { s with wire := s.wire ++ [Item.closeResp] }
 
 inductive WReach (E : WEnv) (cap : Nat) : WSt → Prop
   | init : WReach E cap (winit cap)
@@ -126,9 +132,7 @@ the `net.Conn.Write` that carried it. The output loop's lock is not observable, 
 queue, wire and phase only, and explains each wire emission as the head of the queue or as the forced
 direct write of the close request (only possible once the bounded wait — `closeWaitMs` — is over). -/
 
-/-- the bounded wait of `closeWithError`: 1000 iterations of `time.Sleep(time.Millisecond)` (tied to
-    the source by `Props/C03.close_wait_and_idle_constants`) -/
-def closeWaitMs : Nat := 1000
+open Mieru.Close (closeWaitMs)
 
 inductive WEv where
   | write (lens : List Nat)
@@ -161,7 +165,10 @@ def waccept (c : WAcc) : WEv → Option WAcc
         some { c with wire := c.wire ++ [x], ph := .discarding, sched := false }
       else none
     | [] =>
-      if x = Item.closeReq ∧ c.ph = .waiting ∧ closeWaitMs ≤ ms then
+      if x = Item.closeResp ∧ Item.closeReq ∈ c.wire then
+        -- `inputClose` answering the close request the peer's session sent when it closed in turn
+        some { c with wire := c.wire ++ [x] }
+      else if x = Item.closeReq ∧ c.ph = .waiting ∧ closeWaitMs ≤ ms then
         some { c with wire := c.wire ++ [x], ph := .discarding }
       else if c.ph = .done ∧ c.late = 0 then
         -- the one segment the output loop had already dequeued when `DeleteAll` ran
